@@ -1106,9 +1106,20 @@ class Interp:
             args = [f.selfv] + list(args)
         self.bind_params(node, list(args), dict(kwargs), env, defaults_env)
         if isinstance(node, ast.Lambda):
-            return self.ev(node.body, env)
+            saved_b = self.binders
+            self.binders = {}
+            try:
+                return self.ev(node.body, env)
+            finally:
+                self.binders = saved_b
         if self.spec:
-            return self.spec_call_body(node, env)
+            # bound variables of the caller's quantifiers must not capture the callee's parameter names
+            saved_b = self.binders
+            self.binders = {}
+            try:
+                return self.spec_call_body(node, env)
+            finally:
+                self.binders = saved_b
         self.depth += 1
         try:
             self.exec_block(node.body, env)
@@ -1194,7 +1205,8 @@ class Interp:
                 if cl.startswith("ghost:"):
                     self.exec_ghost(cl[6:], env)
                     continue
-                self.path.prove(self.eval_spec(cl, env), "%s/assert-after:%s#%d" % (c.short, nm, i), "assert", where=cl)
+                self.path.prove(self.eval_spec(cl, env), "%s/assert-after:%s#%d" % (c.short, nm, i), "assert", where=cl,
+                                assume_form=self.eval_spec(cl, env, assume=True))
 
     def ex_AnnAssign(self, s, env):
         if s.value is None:
@@ -1458,6 +1470,8 @@ class Interp:
 
     def ex_If(self, s, env):
         if not self.ver.no_if_conversion and self.try_if_conversion(s, env):
+            for st in list(s.body) + list(s.orelse):
+                self.ver.cover(st)
             return
         c = self.ev(s.test, env)
         if self.test(c):
@@ -1594,7 +1608,8 @@ class Interp:
     def check_invariants(self, spec, env, oname):
         for idx, inv in enumerate(spec.get("inv", [])):
             phi = self.eval_spec(inv, env)
-            self.path.prove(phi, "%s#%d" % (oname, idx), "invariant", where=inv)
+            self.path.prove(phi, "%s#%d" % (oname, idx), "invariant", where=inv,
+                            assume_form=self.eval_spec(inv, env, assume=True))
 
     def assume_invariants(self, spec, env):
         for inv in spec.get("inv", []):
@@ -1640,8 +1655,20 @@ class Interp:
             self.spec = saved
 
     def havoc_loop_targets(self, s, env, spec):
-        from .modset import loop_modset
+        from .modset import loop_modset, body_mods
         names, paths = loop_modset(self, s, env)
+        # ghost state written by the `effects` of callee / parameter contracts is not visible in the loop's AST:
+        # havoc every ghost variable that some registered effect statement may write
+        genv = getattr(self, "ghost_env", None)
+        if genv is not None and genv.vars and any(isinstance(n, ast.Call) for b in s.body for n in ast.walk(b)):
+            for gname in sorted(self.ver.ghost_written_names()):
+                gv = genv.vars.get(gname)
+                if gv is None:
+                    continue
+                if isinstance(gv, (VSeq, VMap, VSet, VObj, VDictRec)):
+                    self.havoc_inplace(gv, "lg_" + gname)
+                else:
+                    genv.vars[gname] = self.havoc_like(gv, "lg_" + gname)
         for extra in spec.get("modifies", []):
             paths.append(extra)
         for nm in sorted(names):
